@@ -122,6 +122,10 @@ func (r *dataReader) Read(b []byte) (n int, err error) {
 				r.state = stateEOF
 				continue
 			}
+			// Not part of .\r\n.
+			// Consume leading dot and emit saved \r.
+			r.r.UnreadByte()
+			c = '\r'
 			r.state = stateData
 		case stateCR:
 			if c == '\n' {
